@@ -209,7 +209,7 @@ bool Instance::setup_environment(unsigned int flags) {
     env->successor_script = successor_script;
     env->pretend_valid_map = pretend_valid_map;
     env->pretend_valid_pubkeys = pretend_valid_pubkeys;
-    env->done &= successor_script.size() == 0;
+    env->done &= successor_script.size() == 0 && tce == nullptr; // (an empty tapscript leaf still has its commitment check to go through)
     env->execdata = execdata;
     env->tce = tce;
 
